@@ -31,8 +31,10 @@ VARIABLES inst,   \* the instance (a record, see Init)
           phase,  \* "new" -> "done"
           jac,    \* approx level: rows x requested columns (scale S^2); disc level: <<>>
           pts,    \* set of evaluation points, each a sequence of <<re, im>> (scale S)
-          out     \* disc level: record of nested Jacobians / verdicts; approx level: <<>>
-vars == <<inst, phase, jac, pts, out>>
+          out,    \* disc level: record of nested Jacobians / verdicts; approx level: <<>>
+          aux     \* approx level: per entry, numerator / denominator of the quotient and the
+                  \* symbolic derivatives (1st, 2nd/2, 3rd/6) at x: computed once, used by the invariants
+vars == <<inst, phase, jac, pts, out, aux>>
 
 S == 2^K
 Abs(a) == IF a < 0 THEN -a ELSE a
@@ -143,6 +145,17 @@ OrderTerm(I, r, c, h) ==
        IN D2h(P, I.X, c) * (p + m) + D3(P, I.X, c) * (p * p + p * m + m * m)
 Exact1(I, r, c) == D1(Funs[I.fid].f[r], I.X, c)
 
+\* the same from a record a = [num, den, d1, d2h, d3] computed once per entry
+AuxEntry(I, r, c, h) ==
+  LET P == Funs[I.fid].f[r]
+  IN [num |-> QuotNum(I, P, c, h), den |-> QuotDen(I, c, h),
+      d1 |-> D1(P, I.X, c), d2h |-> D2h(P, I.X, c), d3 |-> D3(P, I.X, c)]
+OrderTermA(I, c, h, a) ==
+  IF I.meth = "cs" THEN -(a.d3 * ImagOff(I, c, h) * ImagOff(I, c, h))
+  ELSE LET p == PlusOff(I, c, h)
+           m == MinusOff(I, c, h)
+       IN a.d2h * (p + m) + a.d3 * (p * p + p * m + m * m)
+
 -------------------------------------------------------------------------------
 (* Enumeration helpers                                                        *)
 RECURSIVE AscSeqOf(_)
@@ -165,15 +178,16 @@ StepChoices == {[sk |-> "scalar", hc |-> <<h, h, h>>] : h \in ScalarSteps}
 
 \* candidate coordinates of a component: on the upper bound, within one step of
 \* it, exactly one step below, zero, on the lower bound, interior points
-Cand(me, lb, ub, h) ==
+Cand(me, n, lb, ub, h) ==
   {v \in (IF me = "cs"
           THEN {ub, 0, lb, -(S \div 2)} \cup (IF Rich THEN {S \div 2, -S} ELSE {})
-          ELSE {ub, ub - h \div 2, ub - h, 0, lb}
+          ELSE {ub, ub - h \div 2, 0, lb}
+               \cup (IF Rich \/ n <= 2 THEN {ub - h} ELSE {})
                \cup (IF Rich THEN {ub - 2 * h, lb + h, -(S \div 2)} ELSE {})) :
      lb <= v /\ v <= ub}
 PointSet(me, n, lb, ub, hc) ==
-  {x \in [1..n -> UNION {Cand(me, lb[c], ub[c], hc[c]) : c \in 1..n}] :
-     \A c \in 1..n : x[c] \in Cand(me, lb[c], ub[c], hc[c])}
+  {x \in [1..n -> UNION {Cand(me, n, lb[c], ub[c], hc[c]) : c \in 1..n}] :
+     \A c \in 1..n : x[c] \in Cand(me, n, lb[c], ub[c], hc[c])}
 
 DsOf(me) == IF me = "cs" THEN {"none", "phys"} ELSE {"none", "phys", "norm"}
 ApproxFuns == IF Rich THEN {1, 2, 3, 4, 5} ELSE {1, 2, 3, 5}
@@ -209,9 +223,9 @@ Flat(lay, req) == Concat(lay, req, Len(req))      \* components (rows) of the re
 
 DiscPoints == IF Rich THEN {<<S, S \div 2, -S>>, <<0, 0, 0>>, <<-2 * S, S \div 2, 0>>, <<S \div 2, 0, 2 * S>>}
               ELSE {<<S, S \div 2, -S>>, <<0, S \div 2, 0>>}
-DiscSteps(me) == {[sk |-> "scalar", hc |-> <<h, h, h>>] : h \in {S \div 16, S \div 64}}
+DiscSteps(me) == {[sk |-> "scalar", hc |-> <<h, h, h>>] : h \in (IF Rich THEN {S \div 16, S \div 64} ELSE {S \div 16})}
                  \cup (IF me = "cs" THEN {} ELSE {[sk |-> "vector", hc |-> <<S \div 16, S \div 8, S \div 64>>]})
-DiscFuns == IF Rich THEN {3, 4} ELSE {3}
+DiscFuns == IF Rich THEN {3, 4} ELSE {4}
 
 \* selections: for every requested variable the selected components (positions
 \* within the variable); "full" when every component of every variable is selected
@@ -246,11 +260,12 @@ InitDisc ==
                     sk |-> st.sk, hc |-> st.hc, X |-> x]
 
 Init == /\ (IF Level = "approx" THEN InitApprox ELSE InitDisc)
-        /\ phase = "new" /\ jac = <<>> /\ pts = {} /\ out = <<>>
+        /\ phase = "new" /\ jac = <<>> /\ pts = {} /\ out = <<>> /\ aux = <<>>
 
 -------------------------------------------------------------------------------
 (* Compute: approximator level                                                *)
-JacApprox(I) == [r \in 1..NOut(I) |-> [j \in 1..Len(I.idx) |-> Quot(I, r, I.idx[j], I.hs[j])]]
+AuxApprox(I) == [r \in 1..NOut(I) |-> [j \in 1..Len(I.idx) |-> AuxEntry(I, r, I.idx[j], I.hs[j])]]
+JacFrom(I, A) == [r \in 1..NOut(I) |-> [j \in 1..Len(I.idx) |-> ExactDiv(A[r][j].num, A[r][j].den)]]
 PtsApprox(I) == (IF I.meth = "fd" THEN {RealPt(I.X)} ELSE {})
                 \cup UNION {PointsOf(I, I.idx[j], I.hs[j]) : j \in 1..Len(I.idx)}
 
@@ -297,15 +312,18 @@ Compute ==
   /\ phase' = "done"
   /\ inst' = inst
   /\ IF inst.lvl = "approx"
-     THEN /\ jac' = JacApprox(inst)
+     THEN /\ aux' = AuxApprox(inst)
+          /\ jac' = JacFrom(inst, aux')
           /\ pts' = PtsApprox(inst)
           /\ out' = <<>>
           /\ (Emit => PrintT(<<"CASE", inst, jac', pts'>>))
      ELSE /\ jac' = <<>>
+          /\ aux' = <<>>
           /\ pts' = PtsDisc(inst)
-          /\ out' = [approx |-> ApproxNested(inst), exact |-> ExactNested(inst),
-                     vexact |-> Verdict(inst, ExactNested(inst), ApproxNested(inst)),
-                     vself |-> Verdict(inst, ApproxNested(inst), ApproxNested(inst))]
+          /\ LET ap == ApproxNested(inst)
+                 ex == ExactNested(inst)
+             IN out' = [approx |-> ap, exact |-> ex,
+                        vexact |-> Verdict(inst, ex, ap), vself |-> Verdict(inst, ap, ap)]
           /\ (Emit => PrintT(<<"DISC", inst, out', pts'>>))
 
 Next == Compute
@@ -330,21 +348,18 @@ OneComponent ==
 
 \* quotient = derivative + closed-form order term (the theoretical bound met with
 \* equality), and no integer division truncated; q is the value of the entry
-ColOK(I, r, c, h, q) ==
-  LET P   == Funs[I.fid].f[r]
-      num == QuotNum(I, P, c, h)
-      den == QuotDen(I, c, h)
-  IN /\ Divides(den, num)
-     /\ q * den = num
-     /\ q = D1(P, I.X, c) + OrderTerm(I, r, c, h)
-     /\ (I.meth = "cs" /\ I.X[c] # 0 => Divides(S, I.X[c] * h))
+EntryOK(I, c, h, q, a) ==
+  /\ Divides(a.den, a.num)
+  /\ q * a.den = a.num
+  /\ q = a.d1 + OrderTermA(I, c, h, a)
+  /\ (I.meth = "cs" /\ I.X[c] # 0 => Divides(S, I.X[c] * h))
 ErrorEqualsOrderTerm ==
   Done =>
     IF inst.lvl = "approx"
     THEN \A r \in 1..NOut(inst), j \in 1..Len(inst.idx) :
-           ColOK(inst, r, inst.idx[j], inst.hs[j], jac[r][j])
+           EntryOK(inst, inst.idx[j], inst.hs[j], jac[r][j], aux[r][j])
     ELSE \A r \in 1..NOut(inst), c \in 1..NIn(inst) :
-           ColOK(inst, r, c, inst.hc[c], Quot(inst, r, c, inst.hc[c]))
+           EntryOK(inst, c, inst.hc[c], Quot(inst, r, c, inst.hc[c]), AuxEntry(inst, r, c, inst.hc[c]))
 
 \* the order of the method, as inequalities: |error| <= C1.h (forward, and
 \* centred next to a bound), <= C2.h^2 (centred, complex step with d = x.h)
@@ -353,12 +368,12 @@ OrderBound ==
     \A r \in 1..NOut(inst), j \in 1..Len(inst.idx) :
       LET c == inst.idx[j]
           h == inst.hs[j]
-          P == Funs[inst.fid].f[r]
-          err == Abs(jac[r][j] - D1(P, inst.X, c))
+          a == aux[r][j]
+          err == Abs(jac[r][j] - a.d1)
           d == IF inst.meth = "cs" THEN Abs(ImagOff(inst, c, h)) ELSE h
-          two == inst.meth = "cs" \/ (inst.meth = "cd" /\ QuotDen(inst, c, h) = 2 * h)
-      IN IF two THEN err <= Abs(D3(P, inst.X, c)) * d * d
-         ELSE err <= Abs(D2h(P, inst.X, c)) * h + Abs(D3(P, inst.X, c)) * h * h
+          two == inst.meth = "cs" \/ (inst.meth = "cd" /\ a.den = 2 * h)
+      IN IF two THEN err <= Abs(a.d3) * d * d
+         ELSE err <= Abs(a.d2h) * h + Abs(a.d3) * h * h
 
 \* discipline level: columns that are not requested are zero, the nested shapes
 \* follow the variable sizes, the self-check succeeds
